@@ -59,7 +59,7 @@ def behaviour(draw, typ, n_ent, rt=False):
 @st.composite
 def scenarios(draw, max_sims=5, min_sims=1, types=TYPES, allow_mem=True, allow_weak=True,
               allow_groups=True, max_until=8, debug_ok=True, sensitive=False, max_conns=8,
-              lazy=None, cache=None, future_ok=True):
+              lazy=None, cache=None, future_ok=True, allow_sync=True):
     n = draw(st.integers(min_sims, max_sims))
     sids = [f"S{i}" for i in range(n)]
     paths = {}
@@ -79,8 +79,11 @@ def scenarios(draw, max_sims=5, min_sims=1, types=TYPES, allow_mem=True, allow_w
         typ[s] = draw(st.sampled_from(types))
         nent[s] = draw(st.sampled_from([1, 1, 2]))
         sp = {"sid": s, "type": typ[s], "n_ent": nent[s]}
-        if allow_mem and draw(st.integers(0, 5)) == 0:
+        tr = draw(st.integers(0, 7))
+        if allow_mem and tr == 0:
             sp["transport"] = "mem"
+        elif allow_sync and tr in (1, 2):
+            sp["transport"] = "sync"      # ungated: immediate replies, like the repository's test simulators
         sp["beh"] = draw(behaviour(typ[s], nent[s]))
         if not future_ok:
             sp["beh"].pop("future", None)
